@@ -96,28 +96,36 @@ TEval(e) ==
                        IN IF k # "none" THEN Verdict(e.id, "kf:" \o k, <<Cardinality(bad), neg>>)
                           ELSE Verdict(e.id, "fail", Short(bad))
 
-(* placement of the code's own stand-alone component matrices by the specification's placement map *)
+(* placement of the code's own stand-alone component matrices by the specification's placement map:
+   <<SUM_k placed component_k, SUM_k |placed component_k|>> per global entry, in exact arithmetic on the observed doubles *)
+DecMat(M) == Fn([i \in 1..Len(M) |-> Fn([j \in 1..Len(M[i]) |-> Obs(M[i][j])])])
+PlacedObserved(pl, size, comps) ==
+    LET K == Len(pl)
+        loc == Fn([k \in 1..K |-> LocTable(pl[k].segs, size)])
+        cr == Fn([k \in 1..K |-> DecMat(comps[k])])
+    IN Fn([r \in 1..size |-> Fn([c \in 1..size |->
+          LET t == Fn([k \in 1..K |-> IF loc[k][r] = 0 \/ loc[k][c] = 0 THEN RZero ELSE cr[k][loc[k][r]][loc[k][c]]])
+          IN <<RSum(t), RAbsSum(t)>>])])
+SymmetricObserved(M) == \A i \in 1..Len(M) : \A j \in (i+1)..Len(M) : M[i][j] = M[j][i]
 TPlace(e) ==
     LET bd == DecBd(e.d)
         pl == BayPlacement(bd)
         size == BaySize(bd)
         K == Len(pl)
-        shapeOk == /\ e.size = size /\ Len(e.obs) = size /\ Len(e.comps) = K
-                   /\ \A k \in 1..K : Len(e.comps[k]) = pl[k].size
-        loc == Fn([k \in 1..K |-> LocTable(pl[k].segs, size)])
-        cr == Fn([k \in 1..K |-> Fn([i \in 1..pl[k].size |-> Fn([j \in 1..pl[k].size |-> Obs(e.comps[k][i][j])])])])
-        terms(r, c) == Fn([k \in 1..K |-> IF loc[k][r] = 0 \/ loc[k][c] = 0 THEN RZero ELSE cr[k][loc[k][r]][loc[k][c]]])
-        bad == { rc \in (1..size) \X (1..size) :
-                   LET t == terms(rc[1], rc[2]) IN ~Close(e.obs[rc[1]][rc[2]], RSum(t), RAbsSum(t), TolPlace) }
-        asym == { k \in (NTiles(bd) + 1)..K : \E i, j \in 1..pl[k].size : e.comps[k][i][j] # e.comps[k][j][i] }
-    IN /\ adef' = bd /\ areq' = [q |-> "place"] /\ aout' = pl
+    IN /\ adef' = bd /\ areq' = [q |-> "place"]
        /\ IF Raised(e) # ""
-          THEN LET ks == { k \in OpenKF : AOutcome(bd, [q |-> e.q], {k}) = Raised(e) }
-               IN IF ks # {} THEN Verdict(e.id, "kf:" \o (CHOOSE k \in ks : TRUE), Raised(e))
-                  ELSE Verdict(e.id, "fail", <<"raised", Raised(e)>>)
-          ELSE IF ~shapeOk THEN Verdict(e.id, "fail", <<"size", e.size, size>>)
-          ELSE IF asym # {} THEN Verdict(e.id, "fail", <<"asymmetric stiffener contribution", asym>>)
-          ELSE Verdict(e.id, IF bad = {} THEN "ok" ELSE "fail", Short(bad))
+          THEN /\ aout' = pl
+               /\ LET ks == { k \in OpenKF : AOutcome(bd, [q |-> e.q], {k}) = Raised(e) }
+                  IN IF ks # {} THEN Verdict(e.id, "kf:" \o (CHOOSE k \in ks : TRUE), Raised(e))
+                     ELSE Verdict(e.id, "fail", <<"raised", Raised(e)>>)
+          ELSE IF ~(/\ e.size = size /\ Len(e.obs) = size /\ Len(e.comps) = K
+                    /\ \A k \in 1..K : Len(e.comps[k]) = pl[k].size)
+          THEN aout' = pl /\ Verdict(e.id, "fail", <<"size", e.size, size>>)
+          ELSE /\ aout' = PlacedObserved(pl, size, e.comps)
+               /\ LET asym == { k \in (NTiles(bd) + 1)..K : ~SymmetricObserved(e.comps[k]) }
+                      bad == BadEntries(e.obs, aout', TolPlace)
+                  IN IF asym # {} THEN Verdict(e.id, "fail", <<"asymmetric stiffener contribution", asym>>)
+                     ELSE Verdict(e.id, IF bad = {} THEN "ok" ELSE "fail", Short(bad))
 
 (* observation: a stiffener's stiffness / mass contribution is symmetric positive semi-definite *)
 TPsd(e) ==
